@@ -101,8 +101,8 @@ Fixpoint gv_is_zero (g : gv) : bool :=
   | VPtr o => match o with None => true | Some _ => false end
   | VSlice _ isnil _ => isnil
   | VMap _ _ isnil _ => isnil
-  | VArray _ xs => forallb gv_is_zero xs
-  | VStruct fs => forallb (fun '(_, _, _, v) => gv_is_zero v) fs
+  | VArray t xs => forallb (fun x => if ety_eqb t EAny then match x with VNil => true | _ => false end else gv_is_zero x) xs
+  | VStruct fs => forallb (fun '(_, _, iface, v) => if (iface : bool) then match v with VNil => true | _ => false end else gv_is_zero v) fs
   | VFunc isnil => isnil
   | VChan isnil => isnil
   end.
